@@ -720,8 +720,17 @@ impl GRLParser {
 
     fn is_balanced_parentheses(&self, text: &str) -> bool {
         let mut count = 0;
+        // Parentheses inside a string literal are text
+        let mut quote: Option<char> = None;
         for ch in text.chars() {
+            if let Some(q) = quote {
+                if ch == q {
+                    quote = None;
+                }
+                continue;
+            }
             match ch {
+                '"' | '\'' => quote = Some(ch),
                 '(' => count += 1,
                 ')' => {
                     count -= 1;
